@@ -279,6 +279,12 @@ func (proof *RangeProof) _computeRootHash() (rootHash []byte, treeEnd bool, err 
 			inners, rinnersq := innersq[0], innersq[1:]
 			innersq = rinnersq
 
+			// The next leaf in key order is the leftmost leaf below the right sibling: a path
+			// that passes a left sibling on its way would skip the leaves under that sibling.
+			if !inners.isLeftmost() {
+				return nil, false, false, errors.Wrap(ErrInvalidProof, "path to the next leaf is not a leftmost path")
+			}
+
 			// Recursively verify inners against remaining leaves.
 			derivedRoot, treeEnd, done, err := COMPUTEHASH(inners, rightmost && rpath.isRightmost())
 			if err != nil {
